@@ -24,10 +24,11 @@ VARIABLES pc,        \* caller -> "idle" | "wait" | "clean" | "done"
           table,     \* id -> owner of the reply channel registered under it
           chan,      \* caller -> uid of the response in its reply channel (0 = empty)
           ctxEnded,  \* caller -> BOOLEAN
-          got,       \* caller -> what its select yielded (0 = context error)
+          got,       \* caller -> what its select yielded (0 = context error, -1 = the send failed)
+          poisoned,  \* the transport's encoder keeps its first write error (TCP, as written)
           rpc, rcur, rch,   \* receiver: step, current response [uid, id], looked-up owner
           nresp, stream, hist, obs
-vars == <<pc, table, chan, ctxEnded, got, rpc, rcur, rch, nresp, stream, hist, obs>>
+vars == <<pc, table, chan, ctxEnded, got, poisoned, rpc, rcur, rch, nresp, stream, hist, obs>>
 
 Ev(k) == [Q0 EXCEPT !.k = k]
 Step(p, a, arg) == hist' = Append(hist, [p |-> p, a |-> a, arg |-> arg])
@@ -43,19 +44,26 @@ Register(c) ==
      THEN /\ pc' = [pc EXCEPT ![c] = "done"]
           /\ obs' = obs \o <<[Ev("call") EXCEPT !.c = c, !.id = IdOf[c]],
                              [Ev("ret") EXCEPT !.c = c, !.res = "inuse"]>>
-          /\ UNCHANGED table
+          /\ UNCHANGED <<table, got, poisoned>>
      ELSE /\ table' = With(table, IdOf[c], c)
-          /\ pc' = [pc EXCEPT ![c] = "wait"]
-          /\ obs' = obs \o <<[Ev("call") EXCEPT !.c = c, !.id = IdOf[c]],
-                             [Ev("reqseen") EXCEPT !.c = c, !.id = IdOf[c]]>>
-  /\ UNCHANGED <<chan, ctxEnded, got, rpc, rcur, rch, nresp, stream>>
+          /\ IF ctxEnded[c] \/ poisoned
+             THEN \* the send fails (its context has ended; or the encoder repeats its first error)
+                  /\ pc' = [pc EXCEPT ![c] = "clean"]
+                  /\ got' = [got EXCEPT ![c] = IF ctxEnded[c] THEN 0 ELSE -1]   \* its own context's error, or the stale one
+                  /\ poisoned' = TRUE
+                  /\ obs' = Append(obs, [Ev("call") EXCEPT !.c = c, !.id = IdOf[c]])
+             ELSE /\ pc' = [pc EXCEPT ![c] = "wait"]
+                  /\ obs' = obs \o <<[Ev("call") EXCEPT !.c = c, !.id = IdOf[c]],
+                                     [Ev("reqseen") EXCEPT !.c = c, !.id = IdOf[c]]>>
+                  /\ UNCHANGED <<got, poisoned>>
+  /\ UNCHANGED <<chan, ctxEnded, rpc, rcur, rch, nresp, stream>>
 
 CtxEnd(c) ==
-  /\ c \in Cancellable /\ pc[c] = "wait" /\ ~ctxEnded[c]
+  /\ c \in Cancellable /\ pc[c] \in {"idle", "wait"} /\ ~ctxEnded[c]
   /\ ctxEnded' = [ctxEnded EXCEPT ![c] = TRUE]
   /\ Step(c, "CtxEnd", "")
   /\ obs' = Append(obs, [Ev("ctxend") EXCEPT !.c = c])
-  /\ UNCHANGED <<pc, table, chan, got, rpc, rcur, rch, nresp, stream>>
+  /\ UNCHANGED <<pc, table, chan, got, poisoned, rpc, rcur, rch, nresp, stream>>
 
 (* the select: exactly one arm is ready (both ready = Go picks at random; those *)
 (* schedules are left to the free runs)                                         *)
@@ -65,7 +73,7 @@ Wait(c) ==
   /\ pc' = [pc EXCEPT ![c] = "clean"]
   /\ Step(c, "Wait", "")
   /\ got' = [got EXCEPT ![c] = chan[c]]
-  /\ UNCHANGED <<table, chan, ctxEnded, rpc, rcur, rch, nresp, stream, obs>>
+  /\ UNCHANGED <<table, chan, ctxEnded, poisoned, rpc, rcur, rch, nresp, stream, obs>>
 
 (* deferred: delete(processingCmds, id) *)
 Cleanup(c) ==
@@ -75,10 +83,11 @@ Cleanup(c) ==
               THEN Without(table, IdOf[c]) ELSE table
   /\ Step(c, "Cleanup", "")
   \* processCommand returns only now
-  /\ obs' = Append(obs, IF got[c] # 0
+  /\ obs' = Append(obs, IF got[c] > 0
                         THEN [Ev("ret") EXCEPT !.c = c, !.res = "resp", !.uid = got[c], !.id = IdOf[c]]
-                        ELSE [Ev("ret") EXCEPT !.c = c, !.res = "ctxerr"])
-  /\ UNCHANGED <<chan, ctxEnded, got, rpc, rcur, rch, nresp, stream>>
+                        ELSE IF got[c] = 0 THEN [Ev("ret") EXCEPT !.c = c, !.res = "ctxerr"]
+                        ELSE [Ev("ret") EXCEPT !.c = c, !.res = "senderr"])
+  /\ UNCHANGED <<chan, ctxEnded, got, poisoned, rpc, rcur, rch, nresp, stream>>
 
 (* the peer writes a response; the receiver takes it and looks the id up *)
 RcvLookup(id) ==
@@ -97,7 +106,7 @@ RcvLookup(id) ==
      ELSE /\ stream' = Append(stream, uid)
           /\ obs' = obs \o <<sent, [Ev("stream") EXCEPT !.uid = uid, !.id = id]>>
           /\ UNCHANGED <<table, rpc, rcur, rch>>
-  /\ UNCHANGED <<pc, chan, ctxEnded, got>>
+  /\ UNCHANGED <<pc, chan, ctxEnded, got, poisoned>>
 
 (* as written: a separate locked region that deletes whatever is under the id now *)
 RcvDelete ==
@@ -105,14 +114,14 @@ RcvDelete ==
   /\ table' = IF Has(rcur.id) THEN Without(table, rcur.id) ELSE table
   /\ rpc' = "deleted"
   /\ Step("rcv", "Delete", "")
-  /\ UNCHANGED <<pc, chan, ctxEnded, got, rcur, rch, nresp, stream, obs>>
+  /\ UNCHANGED <<pc, chan, ctxEnded, got, poisoned, rcur, rch, nresp, stream, obs>>
 
 RcvReply ==
   /\ rpc = "deleted"
   /\ chan' = [chan EXCEPT ![rch] = rcur.uid]
   /\ rpc' = "idle"
   /\ Step("rcv", "Reply", "")
-  /\ UNCHANGED <<pc, table, ctxEnded, got, rcur, rch, nresp, stream, obs>>
+  /\ UNCHANGED <<pc, table, ctxEnded, got, poisoned, rcur, rch, nresp, stream, obs>>
 
 Ended == IF Len(obs) = 0 THEN FALSE ELSE obs[Len(obs)].k = "end"
 (* quiescence: the harness looks at what is left *)
@@ -123,10 +132,10 @@ End ==
   /\ nresp = MaxResp \/ \A c \in Callers : pc[c] # "idle"
   /\ obs' = Append(obs, [Ev("end") EXCEPT !.n = Cardinality(DOMAIN table)])
   /\ Step("drv", "End", "")
-  /\ UNCHANGED <<pc, table, chan, ctxEnded, got, rpc, rcur, rch, nresp, stream>>
+  /\ UNCHANGED <<pc, table, chan, ctxEnded, got, poisoned, rpc, rcur, rch, nresp, stream>>
 
 Init == /\ pc = [c \in Callers |-> "idle"] /\ table = <<>> /\ chan = [c \in Callers |-> 0]
-        /\ ctxEnded = [c \in Callers |-> FALSE] /\ got = [c \in Callers |-> 0]
+        /\ ctxEnded = [c \in Callers |-> FALSE] /\ got = [c \in Callers |-> 0] /\ poisoned = FALSE
         /\ rpc = "idle" /\ rcur = [uid |-> 0, id |-> ""] /\ rch = CHOOSE c \in Callers : TRUE
         /\ nresp = 0 /\ stream = <<>> /\ hist = <<>> /\ obs = <<>>
 
